@@ -524,6 +524,33 @@ pub unsafe extern "C" fn mmap64(
     mmap(addr, len, prot, flags, fd, off)
 }
 
+/// page size reported to the LIBRARY by sysconf(_SC_PAGESIZE) (0 = the real one): kernels with 16 KiB and 64 KiB
+/// pages exist; everything the library sizes by the page must still work when pages are larger than 4 KiB
+pub static FAKE_PAGE_SIZE: AtomicI64 = AtomicI64::new(0);
+static REAL_SYSCONF: AtomicUsize = AtomicUsize::new(0);
+
+#[cfg(not(feature = "tsan"))]
+#[no_mangle]
+pub unsafe extern "C" fn sysconf(name: libc::c_int) -> libc::c_long {
+    if name == libc::_SC_PAGESIZE {
+        let f = FAKE_PAGE_SIZE.load(Ordering::Relaxed);
+        if f > 0 && in_lib() {
+            return f as libc::c_long;
+        }
+    }
+    let mut real = REAL_SYSCONF.load(Ordering::Relaxed);
+    if real == 0 {
+        real = libc::dlsym(libc::RTLD_NEXT, b"sysconf\0".as_ptr() as *const libc::c_char) as usize;
+        REAL_SYSCONF.store(real, Ordering::Relaxed);
+    }
+    if real == 0 {
+        set_errno(libc::EINVAL);
+        return -1;
+    }
+    let f: unsafe extern "C" fn(libc::c_int) -> libc::c_long = std::mem::transmute(real);
+    f(name)
+}
+
 #[cfg(not(feature = "tsan"))]
 #[no_mangle]
 pub unsafe extern "C" fn munmap(addr: *mut libc::c_void, len: libc::size_t) -> libc::c_int {
